@@ -1239,6 +1239,12 @@ class Program:
                 cand = "<%s as %s>::fmt" % (ty, tr)
                 if cand in self.fns:
                     out.append(cand)
+        # `x.to_string()` of a crate-local type goes through the blanket `impl<T: Display> ToString for T`: it runs that type's Display implementation
+        if f.get("trait") == "alloc::string::ToString" and f.get("trait_method") == "to_string" and f.get("self_ty"):
+            ty = f["self_ty"].lstrip("&").replace("mut ", "").strip()
+            cand = "<%s as core::fmt::Display>::fmt" % ty
+            if cand in self.fns:
+                out.append(cand)
         return list(dict.fromkeys(out))
 
     def callees(self, fn, with_closures=True):
